@@ -299,6 +299,17 @@ func TestReplay(t *testing.T) {
 	t.Fail()
 }
 
+// TestVerifChildBuild is the child side of drive.BuildInChild (skipped unless a job is given).
+func TestVerifChildBuild(t *testing.T) {
+	job := os.Getenv(drive.ChildJobEnv)
+	if job == "" {
+		t.Skip("no job")
+	}
+	if err := drive.RunChildJob(job); err != nil {
+		t.Fatal(err)
+	}
+}
+
 func TestMain(m *testing.M) {
 	code := m.Run()
 	drive.CleanupScratch()
